@@ -11,10 +11,10 @@ LEVEL = "model_checking"
 
 TIERS = {
     # BFS bound, simulation (behaviours, depth), cap on bash runs beyond the disagreements
-    "quick":    {"MaxLen": 3, "MaxDepth": 2, "sim": (40, 7), "bash_cap": 2500},
-    "thorough": {"MaxLen": 3, "MaxDepth": 2, "sim": (2500, 10), "bash_cap": None},
+    "quick":    {"MaxLen": 3, "MaxDepth": 2, "sim": (8, 7), "bash_cap": 2500},
+    "thorough": {"MaxLen": 3, "MaxDepth": 2, "sim": (400, 10), "bash_cap": 15000},
 }
-FUEL = 80
+FUEL = 150
 IMPL_TIMEOUT_MS = 2000
 
 
@@ -65,12 +65,12 @@ def run(ck):
     h = vlib.build_harness(F.FAMILY)
     devs = F.active_devs("C26")
     consts = {"MaxLen": T["MaxLen"], "MaxDepth": T["MaxDepth"], "EmitAt": 0, "Fuel": FUEL, "EmitTree": False, "Devs": devs}
-    t = F.run_tlc(ck, "ShInterp", consts, ["Laws", "Emit"], workers=8, timeout=2400)
+    t = F.run_tlc(ck, "ShInterp", consts, ["Check"], workers=8, timeout=2400)
     vecs = t.vecs.get("VEC", [])
     nbfs = len(vecs)
     n, depth = T["sim"]
     sc = dict(consts, MaxLen=depth, EmitAt=depth)
-    s = F.run_tlc(ck, "ShInterp", sc, ["Laws", "Emit"], simulate=n, depth=depth + 1, seed=ck.seed, timeout=2400)
+    s = F.run_tlc(ck, "ShInterp", sc, ["Check"], simulate=n, depth=depth + 1, seed=ck.seed, timeout=2400)
     seen = set(json.dumps(v["ch"]) for v in vecs)
     for v in s.vecs.get("VEC", []):
         k = json.dumps(v["ch"])
@@ -91,7 +91,14 @@ def run(ck):
     ires = F.run_impl(h, srcs, timeout_ms=IMPL_TIMEOUT_MS)
     fields = [vec_fields(v) for v in scope]
     mism = [i for i, (f, r) in enumerate(zip(fields, ires)) if (r.get("out"), r.get("status")) != f[0]]
-    want = set(mism)
+
+    def explained(i):
+        exp, dexp, dfuel, trig = fields[i]
+        r = ires[i]
+        return bool(trig) and ((dexp is not None and (r.get("out"), r.get("status")) == dexp) or (dfuel and r.get("timeout")))
+    # bash decides every disagreement that the named deviations do not explain exactly; the rest is sampled
+    want = set(i for i in mism if not explained(i))
+    ck.notes["unexplained_disagreements"] = len(want)
     rest = [i for i in range(len(scope)) if i not in want]
     cap = T["bash_cap"]
     if cap is None or cap >= len(rest):
@@ -133,7 +140,7 @@ def run(ck):
                       "judged; non-trivial = expected status != 0 or expected stdout not ending in `end 0`" % (T["MaxLen"], n, depth))
     ck.assumptions += ["bash 5.2.15 is the reference shell; each program runs as `( eval prog )` (a subshell environment)",
                        "stderr is not compared", "step budget Fuel=%d: programs the model cannot finish are out of scope" % FUEL,
-                       "quick tier: bash runs on every program where interp and spec disagree and on a seeded sample of the rest"]
+                       "bash runs on every program where interp and spec disagree in a way the named deviations do not explain, and on a seeded sample of the others (cap %s)" % T["bash_cap"]]
 
 
 def replay(ck, rec):
